@@ -631,7 +631,7 @@ func c03Gen(tier string, rng *rand.Rand, emit func(Case)) {
 		}
 		emit(Case{Line: fmt.Sprintf("use %d 0 %s %s", rng.Intn(2), []string{"final", "nil", "final,nil"}[rng.Intn(3)], strings.Join(toks, " ")), Kind: "broken-response-then-next"})
 	}
-	fullSpecs := []string{"nil", "final", "final", "fail1", "fail2", "fail3", "fail5", "fail9", "weof1", "weof2", "ueof1", "ueof3"}
+	fullSpecs := []string{"nil", "final", "final", "fail1", "fail2", "fail3", "fail5", "fail9", "cfail1", "cfail2", "cfail3", "weof1", "weof2", "ueof1", "ueof3"}
 	for i := 0; i < n; i++ {
 		k := 1 + rng.Intn(4)
 		var toks []string
@@ -747,7 +747,7 @@ func c11Gen(tier string, rng *rand.Rand, emit func(Case)) {
 	if tier == "thorough" {
 		n = 4000
 	}
-	specsPool := []string{"final", "final", "nil", "fail1", "fail2", "fail3", "fail4", "fail6", "weof1", "weof3", "ueof2"}
+	specsPool := []string{"final", "final", "nil", "fail1", "fail2", "fail3", "fail4", "fail6", "cfail1", "cfail2", "cfail3", "weof1", "weof3", "ueof2"}
 	for i := 0; i < n; i++ {
 		k := 1 + rng.Intn(3)
 		var toks []string
@@ -794,7 +794,7 @@ func c11Gen(tier string, rng *rand.Rand, emit func(Case)) {
 func init() {
 	register(&Prop{
 		ID: "C03", Gen: func(tier string, rng *rand.Rand, emit func(Case)) { c03Gen(tier, rng, viaReaderTwins(emit)) }, Impl: useImpl,
-		Oracle: func(line, out string) string { return withUseReference(c03Oracle)(directLine(line), out) },
+		Oracle:     func(line, out string) string { return withUseReference(c03Oracle)(directLine(line), out) },
 		FindingKey: func(line, out, clause string) string { return clause },
 		Nontrivial: func(line, out string) bool { return strings.Count(line, " b1:") >= 2 },
 		NoShrink:   true, Timeout: 30 * time.Second,
@@ -803,7 +803,7 @@ func init() {
 	})
 	register(&Prop{
 		ID: "C11", Gen: func(tier string, rng *rand.Rand, emit func(Case)) { c11Gen(tier, rng, viaReaderTwins(emit)) }, Impl: useImpl,
-		Oracle: func(line, out string) string { return withUseReference(c11Oracle)(directLine(line), out) },
+		Oracle:     func(line, out string) string { return withUseReference(c11Oracle)(directLine(line), out) },
 		FindingKey: func(line, out, clause string) string { return clause },
 		Nontrivial: func(line, out string) bool { return !strings.HasSuffix(out, "H=[]") },
 		NoShrink:   true, Timeout: 30 * time.Second,
